@@ -12,7 +12,12 @@ def _cells_ok(t):
     ncols = len(cols)
     for c in cols:
         if isinstance(c, S.Table):
-            return None      # nested tables are outside the property (and the generator never builds them)
+            # nested tables are outside the property (len() of such a table counts columns) - except that
+            # even then all columns must have one common length
+            lens = [len(x) for x in cols]
+            if len(set(lens)) > 1:
+                return ("C02/ragged", "columns (one of them a nested table) have lengths %s" % lens, {"how": "nested-length"})
+            return None
         if not isinstance(c, S.Vector):
             return ("C02/ragged", "column is not a vector: %s" % type(c).__name__, {"how": "non-vector-column"})
     n = len(t)
@@ -55,6 +60,20 @@ def _cells_ok(t):
             gotn = [V.tv(x) for x in t[-1]]
             if gotn != want_row:
                 return ("C02/row-col-mismatch", "t[-1] is %s, columns say %s" % (gotn, want_row), {"how": "index-neg"})
+    # an index the columns do not have is an index the table does not have
+    for i in (n, -n - 1, -2 * n):
+        if i == 0:
+            continue
+        try:
+            want_i = [V.tv(c[i]) for c in cols]
+        except IndexError:
+            want_i = "IndexError"
+        try:
+            got_i = [V.tv(x) for x in t[i]]
+        except IndexError:
+            got_i = "IndexError"
+        if got_i != want_i:
+            return ("C02/row-col-mismatch", "t[%d] gives %s, the columns give %s at that index" % (i, got_i, want_i), {"how": "out-of-range"})
     # two iterations alive at once (nested loops, pairwise zip): the row an outer loop holds
     # must not move when an inner loop over the same table advances
     if 1 < n <= 6:
